@@ -452,12 +452,13 @@ namespace
   void run_noop(uint64_t idx, Ctx &ctx)
   {
     static const int c_cmp = Ctx::counter_id("noop_probes_compared");
-    // kind 0: composition, 1: temperature, 2: composition as in kind 0 next to a temperature model that world A inherits from the feature while world B writes it out in every section entry
-    const bool fault = idx % 2; const int kind = static_cast<int>(idx / 2) % 3; const unsigned k = static_cast<unsigned>(idx / 6) % 3;
+    // kind 0: composition, 1: temperature, 2: composition as in kind 0 next to a temperature model that world A inherits from the feature while world B writes it out in every section entry,
+    // 3: velocity (uniform raw in the section of coordinate k; the other sections add the zero vector in world B)
+    const bool fault = idx % 2; const int kind = static_cast<int>(idx / 2) % 4; const unsigned k = static_cast<unsigned>(idx / 8) % 3;
     const std::string seg0 = "{\"length\":3e5,\"thickness\":[1e5],\"angle\":[90]";
     const std::string tm900 = "\"temperature models\":[{\"model\":\"uniform\",\"temperature\":900}]";
-    const std::string real = kind != 1 ? ",\"composition models\":[{\"model\":\"uniform\",\"compositions\":[0],\"fractions\":[0.8]}]" : "," + tm900;
-    const std::string noop = kind != 1 ? ",\"composition models\":[{\"model\":\"uniform\",\"compositions\":[0],\"fractions\":[0],\"operation\":\"add\"}]" : ",\"temperature models\":[{\"model\":\"uniform\",\"temperature\":0,\"operation\":\"add\"}]";
+    const std::string real = kind == 3 ? ",\"velocity models\":[{\"model\":\"uniform raw\",\"velocity\":[0.07,0.08,0.09]}]" : kind != 1 ? ",\"composition models\":[{\"model\":\"uniform\",\"compositions\":[0],\"fractions\":[0.8]}]" : "," + tm900;
+    const std::string noop = kind == 3 ? ",\"velocity models\":[{\"model\":\"uniform raw\",\"velocity\":[0,0,0],\"operation\":\"add\"}]" : kind != 1 ? ",\"composition models\":[{\"model\":\"uniform\",\"compositions\":[0],\"fractions\":[0],\"operation\":\"add\"}]" : ",\"temperature models\":[{\"model\":\"uniform\",\"temperature\":0,\"operation\":\"add\"}]";
     auto feature = [&](bool with_noops)
     {
       std::string sec = "[";
@@ -477,24 +478,26 @@ namespace
     std::unique_ptr<World> a, b;
     try { a = make_world(ta, 1, "na"); b = make_world(tb, 1, "nb"); }
     catch (const std::exception &e) { ctx.violation("harness/world-rejected", JObj().str("what", std::string(e.what()).substr(0, 300)).str("world", ta).done()); return; }
-    const Request req = {{{1,0,0}},{{2,0,0}},{{4,0,0}}};
-    size_t inside = 0, differing_from_background = 0;
+    const Request req = {{{1,0,0}},{{2,0,0}},{{4,0,0}},{{5,0,0}}};
+    size_t inside = 0, differing_from_background = 0, moving = 0;
     for (double x : {-4e4, -1e4, 1.5e4, 3e4}) for (double y = -2.9e5; y <= 2.9e5; y += 1.25e4) for (double d : {5e4, 1.5e5, 2.5e5})
           {
             const P3 p = query_point(false, x, y, d);
             const std::vector<double> va = a->properties(p, d, req), vb = b->properties(p, d, req);
             ctx.eval(); ctx.count(c_cmp);
             if (va[2] != 0) ++inside;
-            if (kind != 1 ? std::fabs(va[1] - 0.25) > 1e-3 : false) ++differing_from_background;
-            const bool same = va[2] == vb[2] && std::fabs(va[0] - vb[0]) <= 1e-9 * std::max(1.0, std::fabs(va[0])) && std::fabs(va[1] - vb[1]) <= 1e-12;
+            if (kind != 1 && kind != 3 ? std::fabs(va[1] - 0.25) > 1e-3 : false) ++differing_from_background;
+            if (std::fabs(va[3]) + std::fabs(va[4]) + std::fabs(va[5]) > 1e-3) ++moving;
+            const bool same = va[2] == vb[2] && std::fabs(va[0] - vb[0]) <= 1e-9 * std::max(1.0, std::fabs(va[0])) && std::fabs(va[1] - vb[1]) <= 1e-12
+                              && std::fabs(va[3] - vb[3]) <= 1e-12 && std::fabs(va[4] - vb[4]) <= 1e-12 && std::fabs(va[5] - vb[5]) <= 1e-12;
             if (!same)
               {
-                ctx.violation(std::string("C10/noop/") + (fault ? "fault" : "subducting plate") + (kind == 0 ? "/composition" : kind == 1 ? "/temperature" : "/composition-with-an-inherited-temperature-model") + "/sections-without-a-model-differ-from-sections-with-a-model-that-adds-zero",
+                ctx.violation(std::string("C10/noop/") + (fault ? "fault" : "subducting plate") + (kind == 0 ? "/composition" : kind == 1 ? "/temperature" : kind == 3 ? "/velocity" : "/composition-with-an-inherited-temperature-model") + "/sections-without-a-model-differ-from-sections-with-a-model-that-adds-zero",
                               JObj().integer("coordinate_carrying_the_model", k).raw("point", jarr(p)).num("depth", d).raw("only_one_section_has_a_model", jarr(va)).raw("other_sections_add_zero", jarr(vb)).str("world_a", ta).str("world_b", tb).done());
                 return;
               }
           }
-    if (inside > 50 && (kind == 1 || differing_from_background > 10)) ctx.nontrivial();
+    if (inside > 50 && (kind == 1 || (kind == 3 ? moving > 10 : differing_from_background > 10))) ctx.nontrivial();
   }
 
   // ---------- suite reverse: the same trench listed from the other end (section entries renumbered) is the same body ----------
@@ -614,7 +617,7 @@ int main(int argc, char **argv)
     s[5].bound = "{slab, fault} x the coordinate of three whose section entry switches the feature-level temperature and composition models off with empty lists: written in the section entry vs written in its segment, 564 probes each";
     s[4].name = "reverse"; s[4].n = 28; s[4].run = run_reverse;
     s[4].bound = "{slab, fault} x 7 patterns of {100 km, 0} thickness at the three coordinates (the body tapers out along strike) x 2 bent trenches: the world with the coordinates listed from the other end and the section entries renumbered, 3480 probes each";
-    s[3].name = "noop"; s[3].n = 18; s[3].run = run_noop;
+    s[3].name = "noop"; s[3].n = 24; s[3].run = run_noop;
     s[3].bound = "{slab, fault} x {composition, temperature, composition next to a temperature model inherited from the feature (written out in every section entry of the twin)} x the one coordinate of three whose section entry carries a model: compared with the world whose other section entries carry a model that adds zero, 564 probes each";
     s[2].name = "lengthmodel"; s[2].n = 6; s[2].run = run_length_model;
     s[2].bound = "slab with 3 coordinates, section k in {0,1,2} 1000 km long, the others 600 km, feature-level mass conserving temperature (adiabatic heating on / off): probes within 2 km of every coordinate x 25 down-dip positions x 19 depths each compared with the uniform slab that has the interpolated length of that location";
